@@ -12,14 +12,16 @@ import nn_ref_c17 as ref
 
 ID = 'C17'
 LEVEL = 'proof'
-RULE = ('witnesses of the 2 known findings; conv1d: full grid batch 1..2, C 1..4 x every divisor as groups x O in {g,2g}, '
+RULE = ('witnesses of the 3 known findings; conv1d: full grid batch 1..2, C 1..4 x every divisor as groups x O in {g,2g}, '
         'L 1..5 (quick) / 1..7, K 1..3, stride 1..3, padding 0..2, dilation 1..2, positive output size, bias on/off, defaults passed as None '
         'or as the explicit value, float32 and int element types, plus seeded cases beyond the grid (batch<=3, C<=6, L<=12, K<=5, s<=4, p<=3, d<=3); '
         'conv2d: seeded sample (700 quick / 15000 thorough) of the same ranges, batch 1..2, with None / int / pair argument forms; pooling: every (H,W) 1..5 '
         '(quick, interior thinned 1:3) / 1..7, kernel 1..3, stride 1..3 per axis, ceil on/off, 0..2 leading axes: shape_pool2d, slice_pool2d, window '
-        'provenance fold through view::pool2d, max_pool2d, avg_pool2d (data -9..9, so all-negative windows occur); softmax/softmin over every axis (negative too) of rank 1..4; '
-        'batch/layer/instance/group norm on rank 2..4 (every trailing normalized_shape, every divisor as num_groups); linear, bilinear, '
-        'pairwise_distance (default and ord/eps/keepdims forms, broadcast, equal operands), cosine_similarity (every axis, zero vectors) on rank 1..3. '
+        'provenance fold through view::pool2d, max_pool2d, avg_pool2d (data -9..9, so all-negative windows occur; MODEL = fold over the window, exact for max, float32 for avg); '
+        'softmax/softmin over every axis (negative too) of rank 1..4; '
+        'batch/layer/instance/group norm on rank 2..4 (every trailing normalized_shape, every divisor as num_groups); linear, bilinear (rank 1..3, and rank 4 with a middle '
+        'leading extent of 1 and of 2..3), pairwise_distance (default and ord/eps/keepdims forms, broadcast, equal operands), cosine_similarity (every axis, zero vectors) on rank 1..3: '
+        'all of these are evaluated by the Lean MODEL too (the polymorphic compositions of NN/Compose.lean at Float32, at Int for integer linear / bilinear / max pooling) and compared with IMPL and with the oracle. '
         'integer-valued data compared exactly, float results within 4 ulp(float32) x terms x magnitude. non-trivial = parameters not all default')
 EXHAUSTIVE = {'quick': True, 'thorough': True}
 ANCHORS = {'NmVerif.NN.convnd (convWeight, convInput, convCore, convBias, convStride)':
@@ -28,21 +30,34 @@ ANCHORS = {'NmVerif.NN.convnd (convWeight, convInput, convCore, convBias, convSt
            'NmVerif.NN.slidingWindowV / expandV / padV / reshapeV / binop / sumAxes / sliceStepV':
                'index::shape_sliding_window + sliding_window, view/expand.hpp shape_expand + expand, index::shape_pad + pad, reshape, broadcast, reduce, slice as used by convnd',
            'NmVerif.NN.shapePool2d / slicePool2d / poolWindow / poolFold':
-               'index::shape_pool2d, index::slice_pool2d, view::pool2d_t::operator() (apply_slice + flatten + reducer)'}
-ASSUMPTIONS = ['the tree under test carries the fix commits of fixes/C17-conv-batch, C17-conv2d-dilation-pair, C17-pool-ceil-window, C17-max-pool-initial (the model mirrors the repaired code; the group interleaving of conv_reshape_weight is mirrored as it is)',
+               'index::shape_pool2d, index::slice_pool2d, view::pool2d_t::operator() (apply_slice + flatten + reducer)',
+           'NmVerif.NN.maxPool2d / avgPool2d (slicedArr, Reduce.reduceElem maximum, Reduce.mean)':
+               'view::max_reducer_t (reduce_maximum(sliced, None, None, None, False)), view::avg_reducer_t (mean(sliced, None, None, False): reduce_add / index::product(shape(sliced))) (view/pooling.hpp, view/mean.hpp)',
+           'NmVerif.NN.softmax / softmin (red, bin, un over Reduce.reduce and ufunc2)':
+               'view::softmax (reduce_maximum keepdims, subtract, exp, reduce_add keepdims, divide), view::softmin (negative) (view/softmax.hpp, view/softmin.hpp)',
+           'NmVerif.NN.linear (tensordotVal over Linalg.tensordotAxes, bin add)': 'view::linear = tensordot(input, weight, ((-1),(-1))) + bias (view/linear.hpp, view/tensordot.hpp)',
+           'NmVerif.NN.bilinear (bilinearInputReshape, matmulVal over Linalg.matmulV2, bilinearResultTranspose)':
+               'view::bilinear with index::bilinear_input_reshape, index::bilinear_result_transpose, matmulv2, multiply, sum, transpose (view/bilinear.hpp)',
+           'NmVerif.NN.pairwiseDistance / cosineSimilarity (vectorNormO, broadcast2)':
+               'view::pairwise_distance, view::cosine_similarity, view::vector_norm, view::broadcast_arrays (view/pairwise_distance.hpp, cosine_similarity.hpp, vector_norm.hpp)',
+           'NmVerif.NN.batchNorm / layerNorm / instanceNorm / groupNorm (normCore over Reduce.mean, Reduce.var; chanParam = atleastNd + moveLast; groupNormReshape / groupNormAxis / groupNormArgsReshape)':
+               'view::batch_norm, layer_norm (index::layer_norm_axis), instance_norm, group_norm (index::group_norm_reshape, group_norm_axis, group_norm_args_reshape), view::mean, view::var, atleast_nd, moveaxis'}
+ASSUMPTIONS = ['the tree under test carries the fix commits of fixes/C17-conv-batch, C17-conv2d-dilation-pair, C17-pool-ceil-window, C17-max-pool-initial (the model mirrors the repaired code; the group interleaving of conv_reshape_weight and the unit-axis position of bilinear_input_reshape are mirrored as they are)',
                'shape_pool2d and the strided slice compute extents in float32 (ceil/floor of a float quotient): exact only while the quotient is representable (extents < 2^24); the model uses naturals',
                'k <= n for pooling (the C++ wraps in size_t otherwise; the reference rejects it)',
-               'floating-point tolerance (4 ulp x terms) is a harness statement, not a Lean statement',
+               'floating-point tolerance (4 ulp x terms) is a harness statement, not a Lean statement: the theorems about softmax, the norms, linear, pairwise_distance, cosine_similarity and avg pooling are over an abstract element type with opaque element operations and say which elements are combined in which order; the driver instantiates them at Float32 (IEEE single, libm expf/powf) for the correspondence run',
                'the conv theorems are stated over integer-valued arrays (Arr Int) for all inputs: an identity of term sets, not a statement about float rounding',
+               'the element type of intermediate results (e.g. double inside vector_norm through std::pow(float, int)) is not modelled',
                'PyTorch itself is not available: the reference is lib/nn_ref_c17.py written from the documented formulas']
-PARTIAL = ['softmax, softmin, batch/layer/instance/group norm, linear, bilinear, pairwise_distance, cosine_similarity: no Lean theorem (compositions of the C06-C08 pieces over opaque real operations); oracle comparison only',
-           'max/avg pooling: theorems cover output shape and the window element set handed to the reducer; the reduction itself (reduce_maximum / mean) is compared with the oracle only',
+PARTIAL = ['bilinear: no positive Lean theorem for the nested-loop definition (the composition is modelled, compared with the real code and the oracle on rank 1..4, and bilinear_rank4_counterexample pins the defect of rank >= 4 inputs); missing: the matmulv2 term structure for the reshaped (B.., 1, B, I) x (O, I, J) operands carried through multiply / sum / transpose',
+           'softmax / softmin / cosine_similarity are proved in the form the code computes (stabilised exponent, quotient summed term by term); equality with the textbook formula is proved under explicit algebraic laws of the element operations (softmax_eq_textbook, cosine_similarity_eq_textbook), which floating point satisfies only approximately',
+           'batch_norm: theorem for rank-4 inputs (where the code agrees with PyTorch); other ranks are the known finding batch_norm.rank-not-4 (batch_norm_rank2_counterexample)',
            'conv1d theorem covers None | int argument forms (one plane); conv2d theorem covers None | int | pair forms',
            'conv*_eq_nested_loop (PyTorch group assignment) hold on groups = 1 or O = groups (outside: conv1d_groups_counterexample, conv2d_groups_counterexample); conv*_eq_code_loop hold for every groups with the code\'s assignment o % g']
 MANIFEST = dict(
-    text='Proof: 12 Lean theorems. conv1d and conv2d: the mirrored view::convnd pipeline (reshape by groups, pad, sliding_window of input and of the dilation-expanded weight, multiply, sum, reshape, bias, strided slice) is defined, has the extent floor((n+2p-d(k-1)-1)/s)+1 per plane and each element is the nested loop over (channel, kernel) terms, for every batch, extent, kernel, stride, padding, dilation, groups and optional bias (None / int forms, and pairs for conv2d) with the code\'s group assignment o % g; equal to the PyTorch loop for groups = 1 or one output channel per group, with kernel-checked counterexamples outside. Pooling: shape_pool2d = PyTorch extents in floor and ceil mode (with the last-window rule), every window is non-empty, inside the input and equal to the clipped reference window, for any number of leading axes. Tied to the headers by a differential run of conv1d/conv2d/pool2d (model + nested-loop oracle) and of softmax/softmin/4 norms/linear/bilinear/pairwise_distance/cosine_similarity (oracle) on every check.',
-    note='Lean kernel + propext/Classical.choice/Quot.sound; model hand-written, fidelity rests on the correspondence run; softmax/norm/linear routines have no theorem (oracle comparison within 4 ulp x terms); four defects found by this check were repaired in /repo (fixes/C17-*.diff); two known findings remain (conv group interleaving for O/groups > 1, batch_norm on rank 2/3 inputs).',
-    technique='Lean 4 proofs over the mirrored convnd / pool2d index pipeline (Mathlib ring tactic in lemma files only) + differential correspondence + independent nested-loop NumPy oracle')
+    text='Proof: 30 Lean theorems. conv1d and conv2d: the mirrored view::convnd pipeline (reshape by groups, pad, sliding_window of input and of the dilation-expanded weight, multiply, sum, reshape, bias, strided slice) is defined, has the extent floor((n+2p-d(k-1)-1)/s)+1 per plane and each element is the nested loop over (channel, kernel) terms, for every batch, extent, kernel, stride, padding, dilation, groups and optional bias (None / int forms, and pairs for conv2d) with the code\'s group assignment o % g; equal to the PyTorch loop for groups = 1 or one output channel per group, with kernel-checked counterexamples outside. Pooling: shape_pool2d = PyTorch extents in floor and ceil mode (with the last-window rule), every window is non-empty, inside the input and equal to the clipped reference window, for any number of leading axes; max_pool2d = left fold of max over exactly that window from its first element (the greatest element over the integers), avg_pool2d = window sum / number of window elements, the divisor PyTorch uses without padding. Over an abstract element type with opaque operations, for all ranks, extents and axes: softmax / softmin (which elements enter the maximum and the normalising sum: the line through the index along the axis), linear (sum_i x[p,i] w[o,i] + b[o]), pairwise_distance, cosine_similarity, layer / instance / group norm (mean and variance over exactly the trailing block / spatial block / consecutive-channel group) and batch_norm on rank 4. Tied to the headers by a differential run of every routine (model + nested-loop oracle) on every check.',
+    note='Lean kernel + propext/Classical.choice/Quot.sound; model hand-written, fidelity rests on the correspondence run; theorems about softmax / norms / linear / distances are about term selection and fold order over abstract operations (float tolerance 4 ulp x terms is the harness\'s); four defects found by this check were repaired in /repo (fixes/C17-*.diff), one more fix is proposed (fixes/C17-bilinear-lead-axes.diff); three known findings remain (conv group interleaving for O/groups > 1, batch_norm on rank 2/3 inputs, bilinear on rank >= 4 inputs).',
+    technique='Lean 4 proofs over the mirrored convnd / pool2d index pipeline and over compositions of the C06-C08 / C16 models (Mathlib ring tactic in lemma files only) + differential correspondence (IMPL vs Lean MODEL at Float32 / Int vs independent nested-loop NumPy oracle)')
 
 H_C1, H_C2A, H_C2B, H_POOL, H_NORM, H_LIN = 'h_c17_conv1d', 'h_c17_conv2d_nb', 'h_c17_conv2d_b', 'h_c17_pool', 'h_c17_norm', 'h_c17_lin'
 
